@@ -464,7 +464,16 @@ fn run_field<F: FS>(ctx: &Arc<Ctx>) {
         let rinv = fld.inv(&(&rr % &p)).unwrap();
         let lt_vals: Vec<BigUint> = lt.iter().flat_map(|(a, _)| vec![a.clone(), fld.mul(a, &rr), fld.mul(a, &rinv)]).collect();
         r.set(&format!("domain_divstep_{}", F::NAME), json!({"operands": lt_vals.len(), "steps_max": lt.first().map(|x| x.1), "steps_min": lt.last().map(|x| x.1), "typical_steps": refmodel::divstep::steps_needed(&p, &(&p / 3u32))}));
-        let cf: Vec<BigUint> = dedup(cmp_family(&p, n).into_iter().filter(|x| *x < p).chain(neg_family(&p, n)).chain(lt_vals).collect());
+        // ... and the same comparison / borrow classes imposed on the INTERNAL representation:
+        // x = m/R with m a limb-wise neighbour of p or of (p-1)/2 (reduction steps of hand-written
+        // double / add / neg compare the Montgomery limbs, not the canonical value)
+        let cf_mont: Vec<BigUint> = target_family(&p, n).into_iter().filter(|m| *m < p).map(|m| fld.mul(&m, &rinv)).collect();
+        let cf_half_mont: Vec<BigUint> = {
+            // m with 2m in the classes: m = t/2 for t in the family (t even) and (t + p)/2 (t odd)
+            target_family(&p, n).into_iter().filter(|t| *t < p).map(|t| if t.bit(0) { (&t + &p) >> 1 } else { t >> 1 }).map(|m| fld.mul(&m, &rinv)).collect()
+        };
+        r.set(&format!("domain_montgomery_classes_{}", F::NAME), json!({"values": cf_mont.len() + cf_half_mont.len()}));
+        let cf: Vec<BigUint> = dedup(cmp_family(&p, n).into_iter().filter(|x| *x < p).chain(neg_family(&p, n)).chain(lt_vals).chain(cf_mont).chain(cf_half_mont).collect());
         let cf_f: Vec<F> = cf.iter().map(F::of).collect();
         let (nc, nu) = (cf.len(), uforms.len());
         run_cases(
@@ -533,7 +542,21 @@ fn run_field_ark<F: FS + ark_ff::Field>(ctx: &Arc<Ctx>) {
     let p = F::modulus();
     let fld = Fld::new(p.clone());
     let n = F::NBYTES;
-    let small = s_small(&p, n, !ctx.quick());
+    let small0 = s_small(&p, n, !ctx.quick());
+    // operands of the trait-level unary forms: S_small, limb patterns, Montgomery-domain limb
+    // patterns, and the comparison / borrow classes on the canonical value AND on the internal
+    // representation (m and 2m limb-wise neighbours of p and of (p-1)/2)
+    let small: Vec<BigUint> = {
+        let rinv = fld.inv(&((BigUint::one() << (8 * n)) % &p)).unwrap();
+        let tf: Vec<BigUint> = target_family(&p, n).into_iter().filter(|t| *t < p).collect();
+        let mut v = small0.clone();
+        v.extend(s_limb(&p, n, &[0, 0xFFFF_FFFF]));
+        v.extend(mont_patterns(&p, n, 0));
+        v.extend(tf.iter().cloned());
+        v.extend(tf.iter().map(|m| fld.mul(m, &rinv)));
+        v.extend(tf.iter().map(|t| if t.bit(0) { (t + &p) >> 1 } else { t >> 1 }).map(|m| fld.mul(&m, &rinv)));
+        dedup(v)
+    };
     let na = small.len();
     run_cases(
         ctx, "E3/C10-ark-un", false,
@@ -542,7 +565,7 @@ fn run_field_ark<F: FS + ark_ff::Field>(ctx: &Arc<Ctx>) {
         |&(_, w, ai)| (format!("{}|{}", F::NAME, ARK_UN[w]), json!({"field": F::NAME, "kind": "ark_un", "form": ARK_UN[w], "a": hexle(&small[ai], n)})),
     );
     let exps = exp_slices(&p);
-    let bases: Vec<BigUint> = vec![BigUint::zero(), BigUint::one(), BigUint::from(2u32), &p - 1u32, BigUint::from(3021u32), small[small.len() - 2].clone()];
+    let bases: Vec<BigUint> = vec![BigUint::zero(), BigUint::one(), BigUint::from(2u32), &p - 1u32, BigUint::from(3021u32), small0[small0.len() - 2].clone()];
     run_cases(
         ctx, "E3/C10-ark-pow", true,
         (0..bases.len() * exps.len()).into_par_iter().map(|i| (F::NAME, i % bases.len(), i / bases.len())),
